@@ -6,13 +6,13 @@ HERE = os.path.dirname(os.path.dirname(os.path.abspath(__file__)))
 # id -> (technique, level text, level note, design ref)
 SOLVE_NOTE = "Trusted: the dense f64 re-evaluation (compensated sums) in harness/src/{oracle,solve}.rs, the cone membership definitions there, and for PSD cones the harness' pure-Rust BLAS/LAPACK shim (self-tested in setup_cmd). Problems are small (n<=40, m<=90); defects needing thousands of variables or a particular BLAS are out of reach."
 CLAIMED = {
- "C01": ("proptest-generated planted-feasible conic problems x settings; independent re-evaluation of the documented termination test on the user's data",
-         "Exploration: ~63k (quick) / 1.6M (thorough) generated problems with a planted strictly feasible primal-dual pair over all cone types, P forms, infinite-bound rows, bad scaling and a random settings point are solved; every Solved result is re-checked from solution.{x,s,z} alone against tol_feas / tol_gap_* and cone membership with an explicit rounding allowance.",
+ "C01": ("proptest-generated planted-feasible conic problems x settings; independent re-evaluation of the documented termination test on the user's data, on first solves and on re-solves of a live solver after update_q/update_b",
+         "Exploration: ~83k (quick) / 2.1M (thorough) generated problems with a planted strictly feasible primal-dual pair over all cone types, P forms, infinite-bound rows, bad scaling and a random settings point are solved; every Solved result is re-checked from solution.{x,s,z} alone against tol_feas / tol_gap_* and cone membership with an explicit rounding allowance.",
          SOLVE_NOTE, "DESIGN.md §4 C01"),
  "C02": ("proptest-generated planted-infeasible problems; Farkas certificate validity, NaN objectives and the documented scale-dependent test re-evaluated on the user's data, on first solves and on re-solves of a live solver after update_q/update_b",
          "Exploration: planted strongly primal-/dual-infeasible problems (plus feasible controls) over all cones, rescaled, under random settings; every Primal/DualInfeasible result must have z in K*, b'z<0 (s in K, q'x<0), NaN objectives and pass the documented test with kappa taken from the observer hook.",
          SOLVE_NOTE, "DESIGN.md §4 C02"),
- "C03": ("proptest-generated problems x stress settings reaching all 10 terminal statuses; reported figures recomputed from returned vectors",
+ "C03": ("proptest-generated problems x stress settings reaching all 10 terminal statuses; reported figures recomputed from returned vectors, on first solves and on re-solves of a live solver after update_q/update_b",
          "Exploration: feasible/infeasible/badly-scaled problems under stress settings (tiny max_iter, zero time limit, unreachable tolerances, regularisation/refinement off); obj_val, obj_val_dual, r_prim, r_dual, status/iterations consistency and the Almost* reduced-tolerance claims are re-derived independently. Evidence lists the per-status histogram.",
          SOLVE_NOTE + " Iterates beyond 1e150 (overflowing plain sums of squares) are not judged.", "DESIGN.md §4 C03"),
  "C04": ("proptest-generated boundary shapes, extreme magnitudes, limits and ill-formed dimensions under catch_unwind",
@@ -24,7 +24,7 @@ CLAIMED = {
  "C06": ("proptest-generated well-posed family G under default settings; distributional gate (binomial margin) on the Solved fraction over the family and over its cost-balance sub-families, and frozen p95 iteration envelopes per cone stratum",
          "Exploration (statistical): 36k (quick) / 480k (thorough) planted strictly-feasible, full-column-rank instances over all cone mixtures are solved with default settings; alarm iff the Solved fraction is below 99.5% by more than 4.5 binomial standard deviations or p95(iterations) exceeds the frozen envelope of 27 (baseline on the repaired tree: 99.72% Solved, p95=18). Evidence lists per-status counts, percentiles and the worst cone classes; the replay file holds the non-solved instances.",
          SOLVE_NOTE + " The gate cannot see failures confined to <0.3% of the family.", "DESIGN.md §4 C06"),
- "C07": ("proptest-generated problems x line-search settings; invariant over the observed iterate history + bitwise prefix determinism against max_iter=k runs",
+ "C07": ("proptest-generated problems x line-search settings; invariant over the observed iterate history + bitwise prefix determinism against max_iter=k runs and bitwise restoration of the previous iterate on rollback",
          "Exploration: 25k (quick) / 600k (thorough) problems (feasible, infeasible, all cone mixtures, both scaling strategies, strategy switches and rollbacks) are solved with the per-iteration observer: tau,kappa>0, s in K, z in K* at every loop head, steps in (0,1]; then for k=0..min(K,10) a fresh run with max_iter=k must stop bit-identically at the long run's k-th iterate and return exactly its un-scaling (~10 extra solves per case).",
          SOLVE_NOTE + " Iterates are read through the observer hook in internal coordinates; presolve is off so dimensions match.", "DESIGN.md §4 C07"),
  "C08": ("model-based stateful generation: histories of update operations in every argument form interpreted against the solver and a user-level model; differential against a freshly built solver",
